@@ -474,10 +474,26 @@ N_REQ = 17
 
 
 def real_side(d) -> dict:
-    """everything that is asked of the real code for one tree (runs in the check or in a worker process)"""
+    """everything that is asked of the real code for one tree (runs in the check or in a worker process):
+    the 8 hints, the classification of the tree, and Python's view of each hint (normal form of the evaluated
+    hint, number of None per union, number of Optional[/Union[ subscriptions)"""
     hints = {o: real_hint(d, o) for o in tt.OPTION_VECTORS}
     trig = triggers(d)
-    return {"hints": hints, "trig": trig, "domain": not (NOT_IR & set(trig)), "oracle_fails": None}
+    domain = not (NOT_IR & set(trig))
+    evaluable = domain and "literal_special" not in trig
+    nfs, nnone, nwrap = {}, {}, {}
+    if evaluable:
+        for o, (h, _) in hints.items():
+            if h == "!exc":
+                continue
+            nfs[o] = nf_of_hint(h)
+            try:
+                tree = ast.parse(h, mode="eval").body if h else None
+            except SyntaxError:
+                tree = None
+            if tree is not None:
+                nnone[o], nwrap[o] = none_counts(tree), wrapper_subscripts(tree)
+    return {"hints": hints, "trig": trig, "domain": domain, "evaluable": evaluable, "nfs": nfs, "nnone": nnone, "nwrap": nwrap, "oracle_fails": None}
 
 
 _probe: Check | None = None
@@ -542,7 +558,7 @@ def judge_tree(ck: Check, tc: TreeCampaigns, stream: str, d, reps: list[str], re
                 if (unhx(pe), fl == "1") != impl:
                     ck.disagree(camp2, {"tree": d, "opts": list(o), "what": "print(hintE) on a wfTree"}, (unhx(pe), fl == "1"), impl)
                 elif domain and plain_lits:
-                    pyden = nf_of_hint(impl[0])
+                    pyden = real["nfs"][o]
                     if not pyden.startswith("!"):
                         camp2.distinct.add((key, o))
                         camp2.hit("denote_vs_eval:" + ("operator" if o[0] else "typing"))
@@ -557,7 +573,7 @@ def judge_tree(ck: Check, tc: TreeCampaigns, stream: str, d, reps: list[str], re
     camp.hit(f"size:{min(tt.size(d), 8)}")
     if tt.size(d) > 1:
         camp.distinct.add(key)
-    judge_region(ck, reg, d, key, reps[2 * len(tt.OPTION_VECTORS)], hints, trig)
+    judge_region(ck, reg, d, key, reps[2 * len(tt.OPTION_VECTORS)], real)
     # the property's own oracle, on the trees the property quantifies over
     if domain:
         orc.evaluations += 1
@@ -572,7 +588,7 @@ def judge_tree(ck: Check, tc: TreeCampaigns, stream: str, d, reps: list[str], re
             orc.samples.append({"tree": d, "hints": {tt.opt_bits(o): v[0] for o, v in hints.items()}})
 
 
-def judge_region(ck: Check, reg, d, key: str, rep: str, hints: dict, trig: list[str]) -> None:
+def judge_region(ck: Check, reg, d, key: str, rep: str, real: dict) -> None:
     """The decidable hypotheses of the new theorems on this tree, and — where they hold — the conclusions on the
     REAL hints: none_once_operator, spelling_invariant_operator_partial (per container spelling),
     spelling_invariant_partial (all eight).  A conclusion that fails inside the region is a model/code
@@ -582,6 +598,7 @@ def judge_region(ck: Check, reg, d, key: str, rep: str, hints: dict, trig: list[
         ck.disagree(reg, {"tree": d}, rep, "types.region reply")
         return
     _, wf, free, regs, why, rootok = rep.split(" ")
+    hints = real["hints"]
     if any(v[0] == "!exc" for v in hints.values()):
         reg.hit("real_raises")
         return
@@ -602,32 +619,24 @@ def judge_region(ck: Check, reg, d, key: str, rep: str, hints: dict, trig: list[
             reg.hit("outside:why:optional member of a union that is itself the list/set/dict (C13-F4)")
         if why[2] == "1":
             reg.hit("outside:why:list/set/dict union of Nones (C13-F3)")
-    evaluable = not (NOT_IR & set(trig)) and "literal_special" not in trig
-    parsed = {}
-    for o, (h, _) in hints.items():
-        try:
-            parsed[o] = ast.parse(h, mode="eval").body if h else None
-        except SyntaxError:
-            parsed[o] = None
+    evaluable, nnone, nwrap = real["evaluable"], real["nnone"], real["nwrap"]
     # none_once_operator / no_optional_wrapper_operator: every wfTree, the four `|` spellings
     for o in tt.OPTION_VECTORS:
-        if o[0] and parsed[o] is not None and evaluable:
-            n_none, n_wrap = none_counts(parsed[o]), wrapper_subscripts(parsed[o])
+        if o[0] and o in nnone:
             reg.hit("checked:none_once_operator")
-            if n_none > 1 or n_wrap:
+            if nnone[o] > 1 or nwrap[o]:
                 ck.disagree(reg, {"tree": d, "opts": list(o), "theorem": "none_once_operator"}, "None at most once per union, no Optional[/Union[", hints[o][0])
     # the statement vocabulary: rootOK (Lean) vs none_counts (the oracle's) on the real hints
-    if evaluable:
-        for bit, o in zip(rootok, (TYPING0, OPERATOR0)):
-            if parsed[o] is not None:
-                py = none_counts(parsed[o]) <= 1
-                reg.hit("checked:rootOK_vs_none_counts")
-                if py != (bit == "1"):
-                    ck.disagree(reg, {"tree": d, "opts": list(o), "what": "rootOK vs none_counts"}, bit == "1", py)
+    for bit, o in zip(rootok, (TYPING0, OPERATOR0)):
+        if o in nnone:
+            py = nnone[o] <= 1
+            reg.hit("checked:rootOK_vs_none_counts")
+            if py != (bit == "1"):
+                ck.disagree(reg, {"tree": d, "opts": list(o), "what": "rootOK vs none_counts"}, bit == "1", py)
     if not evaluable:
         reg.hit("conclusions_not_evaluated (names that are not identifiers / typing names as types)")
         return
-    nfs = {o: nf_of_hint(h) for o, (h, _) in hints.items()}
+    nfs = real["nfs"]
     # spelling_invariant_operator_partial, per container spelling
     differs_somewhere = False
     for k, (std, gen) in enumerate(CONTAINER_SPELLINGS):
